@@ -45,10 +45,7 @@ fn main() {
                 std::process::exit(2);
             }
         };
-        let r = match props::hist_prop(id) {
-            Some(hp) => props::hist::replay_value(&hp, &v),
-            None => Err(format!("unknown property {}", id)),
-        };
+        let r = props::replay(id, &v);
         match r {
             Ok(None) => {
                 println!("replay {}: property held", args[3]);
